@@ -378,6 +378,19 @@ pub struct DevViolation {
 
 /// Deviation-bounded exploration of `scenario`: the default schedule, then
 /// every schedule with exactly 1, 2, .. `bound` non-default answers.
+/// Wall budget of the running E2 check (set by the check, consulted between
+/// deviation levels and between cells). What it cuts is reported as capped,
+/// never as covered.
+static BUDGET_END: std::sync::Mutex<Option<std::time::Instant>> = std::sync::Mutex::new(None);
+
+pub fn set_budget(seconds: f64) {
+    *BUDGET_END.lock().unwrap() = Some(std::time::Instant::now() + std::time::Duration::from_secs_f64(seconds));
+}
+
+pub fn past_budget() -> bool {
+    BUDGET_END.lock().unwrap().is_some_and(|t| std::time::Instant::now() > t)
+}
+
 pub fn explore_deviations<S>(scenario: &S, bound: usize, max_execs: u64) -> (DevStats, Vec<DevViolation>)
 where
     S: Fn(&BTreeMap<usize, usize>) -> RunResult + Sync,
@@ -422,6 +435,10 @@ where
         }
         if stats.executions + jobs.len() as u64 > max_execs {
             stats.capped = Some(format!("execution cap {} would be exceeded at deviation bound {} ({} schedules)", max_execs, d, jobs.len()));
+            break;
+        }
+        if past_budget() {
+            stats.capped = Some(format!("wall budget of the check used up before deviation bound {d} of this cell"));
             break;
         }
         let keep_points = d < bound;
